@@ -8,19 +8,54 @@
    exactly these constants.  Executable definitions only. *)
 From Coq Require Import List NArith ZArith Bool.
 Import ListNotations.
-Require Import Verif.Lib.Wire.
+Require Import Verif.Lib.Wire Verif.Lib.Text.
 
 Inductive action := Allow | Deny | Other.          (* Other: any value that is neither constant *)
-Inductive perms := PAll | PNames (l : list text).  (* ALL_PERMISSIONS | iterable; a bare str is PNames [s] *)
+(* the object found in the permission field of an ACE, as the code sees it:
+     PStr s    a str (or an instance of a str subclass) -- one permission name
+     PNames l  any other object with __iter__ whose elements are the names l (list, tuple, set, frozenset,
+               dict / keys view, an object that only defines __iter__, a one-shot generator)
+     PAll      an instance of AllPermissionsList or of a subclass (pyramid.authorization.ALL_PERMISSIONS, the legacy
+               pyramid.security.ALL_PERMISSIONS, a fresh instance, an application subclass)
+     PAtom     any other object WITHOUT __iter__ (an int, None, ...): equal to no permission name *)
+Inductive perms := PAll | PNames (l : list text) | PStr (s : text) | PAtom.
 Record ace := mkAce { act : action; who : text; what : perms }.
 Definition acl := list ace.
 (* lineage, context first; None = the location has no __acl__ attribute.  A
    callable __acl__ is represented by the list it returns. *)
 Definition lineage := list (option acl).
 
-(* [permission in ace_permissions] after the is_nonstr_iter normalisation *)
-Definition perm_in (p : text) (ps : perms) : bool :=
-  match ps with PAll => true | PNames l => mem_text p l end.
+(* leaves of pyramid.util.is_nonstr_iter:  isinstance(v, str)  /  hasattr(v, '__iter__') *)
+Definition is_str (v : perms) : bool := match v with PStr _ => true | _ => false end.
+Definition has_iter (v : perms) : bool := match v with PAtom => false | _ => true end.
+
+(* [p in s] on two str: substring test *)
+Fixpoint is_substr (p s : text) : bool :=
+  startswith p s || match s with [] => false | _ :: r => is_substr p r end.
+
+(* the value of [ace_permissions] after  `if not is_nonstr_iter(v): v = [v]`:  v itself, or the one-element list [v] *)
+Inductive nperms := Wrapped (v : perms) | Self (v : perms).
+Definition normalise (isit : perms -> bool) (v : perms) : nperms := if isit v then Self v else Wrapped v.
+
+(* [permission in x] for a str permission p.  [allc] is AllPermissionsList.__contains__ (regenerated).
+   p in [v]      list membership is ==: a str equals only an equal str (AllPermissionsList.__eq__ is an
+                 isinstance test, every other object here compares unequal)
+   p in 'str'    substring test;  p in iterable: some element == p;  p in ALL: __contains__
+   p in <object without __iter__>: TypeError in Python -- answered false here; not reachable when [isit] is the
+                 real is_nonstr_iter (normalise_never_self_atom in Proofs/C11.v) *)
+Definition contains (allc : text -> bool) (p : text) (n : nperms) : bool :=
+  match n with
+  | Wrapped (PStr s) => text_eqb p s
+  | Wrapped _ => false
+  | Self (PStr s) => is_substr p s
+  | Self (PNames l) => mem_text p l
+  | Self PAll => allc p
+  | Self PAtom => false
+  end.
+
+(* [permission in ace_permissions] after the normalisation idiom *)
+Definition perm_in_with (isit : perms -> bool) (allc : text -> bool) (p : text) (v : perms) : bool :=
+  contains allc p (normalise isit v).
 
 (* [ace_action == Allow], [ace_action == Deny] *)
 Definition is_allow (a : action) : bool := match a with Allow => true | _ => false end.
